@@ -4,17 +4,15 @@ namespace Fit.Shared
 
 def ShOK (sh : Sh) : Prop := (∀ a ∈ sh.pool, a = zeroArr) ∧ (sh.once = true → sh.table = theTable)
 
-/-- the shared state only grows: the once stays done, a set `Factory` stays what it is -/
+/-- the shared state only grows: the once stays done; the options objects stay what they are -/
 def ShLe (sh sh' : Sh) : Prop :=
-  (sh.once = true → sh'.once = true) ∧ (∀ o, (sh.opts o).isSome = true → sh'.opts o = sh.opts o)
+  (sh.once = true → sh'.once = true) ∧ sh'.opts = sh.opts
 
-/-- an options cell is what the caller set, or was nil and has been defaulted to the standard factory -/
-def OptsRel (sh0 sh : Sh) : Prop :=
-  ∀ o, sh.opts o = sh0.opts o ∨ (sh0.opts o = none ∧ sh.opts o = some stdFactory)
+/-- every options object is what the caller made it (`Factory` set or nil): nobody has written one -/
+def OptsRel (sh0 sh : Sh) : Prop := sh.opts = sh0.opts
 
 def PrivOK (sh : Sh) (p : Priv) : Prop :=
-  (p.onceSeen = true → sh.once = true) ∧ (∀ o ∈ p.defaulted, (sh.opts o).isSome = true) ∧
-  (∀ a, p.held = some a → a.length = poolsize)
+  (p.onceSeen = true → sh.once = true) ∧ (∀ a, p.held = some a → a.length = poolsize)
 
 theorem removeNth_mem {l : List Arr} {i : Nat} {a : Arr} (h : a ∈ removeNth l i) : a ∈ l := by
   induction l generalizing i with
@@ -46,11 +44,9 @@ theorem poolGet_zero (pool : List Arr) (c : Nat) (h : ∀ a ∈ pool, a = zeroAr
       · intro a ha; exact h a (removeNth_mem ha)
 
 theorem privOK_mono {sh sh' : Sh} {p : Priv} (h : PrivOK sh p) (hle : ShLe sh sh') : PrivOK sh' p := by
-  refine ⟨fun ho => hle.1 (h.1 ho), fun o ho => ?_, h.2.2⟩
-  have := h.2.1 o ho
-  rw [hle.2 o this]; exact this
+  exact ⟨fun ho => hle.1 (h.1 ho), h.2⟩
 
-theorem shLe_refl (sh : Sh) : ShLe sh sh := ⟨id, fun _ _ => rfl⟩
+theorem shLe_refl (sh : Sh) : ShLe sh sh := ⟨id, rfl⟩
 
 theorem overlay_length (vals : List Nat) (a : Arr) : (overlay vals a).length = a.length := by
   simp only [overlay, List.length_take, List.length_append, List.length_drop]
@@ -66,10 +62,10 @@ theorem step_spec (sh0 sh : Sh) (p : Priv) (a : Act) (c : Nat) (hok : ShOK sh) (
     by_cases h : sh.once = true
     · have e : (step Act.onceDo c p sh).2 = sh := by simp [step, h]
       rw [e]
-      exact ⟨rfl, hok, hrel, shLe_refl _, fun _ => h, hp.2.1, hp.2.2⟩
+      exact ⟨rfl, hok, hrel, shLe_refl _, fun _ => h, hp.2⟩
     · have e : (step Act.onceDo c p sh).2 = { sh with once := true, table := theTable } := by simp [step, h]
       rw [e]
-      refine ⟨rfl, ⟨hok.1, fun _ => rfl⟩, hrel, ⟨fun _ => rfl, fun _ _ => rfl⟩, fun _ => rfl, hp.2.1, hp.2.2⟩
+      refine ⟨rfl, ⟨hok.1, fun _ => rfl⟩, hrel, ⟨fun _ => rfl, rfl⟩, fun _ => rfl, hp.2⟩
   | readTable k =>
     refine ⟨?_, hok, hrel, shLe_refl _, hp⟩
     simp only [step, privSolo]
@@ -78,18 +74,18 @@ theorem step_spec (sh0 sh : Sh) (p : Priv) (a : Act) (c : Nat) (hok : ShOK sh) (
     · simp [h]
   | get =>
     obtain ⟨h1, h2⟩ := poolGet_zero sh.pool c hok.1
-    refine ⟨?_, ⟨h2, hok.2⟩, hrel, ⟨id, fun _ _ => rfl⟩, ?_⟩
+    refine ⟨?_, ⟨h2, hok.2⟩, hrel, ⟨id, rfl⟩, ?_⟩
     · simp only [step, privSolo, h1]
-    · refine ⟨hp.1, hp.2.1, ?_⟩
+    · refine ⟨hp.1, ?_⟩
       intro a ha
       simp only [step, Option.some.injEq] at ha
       rw [← ha, h1]; simp [zeroArr]
   | write vals =>
-    refine ⟨rfl, hok, hrel, shLe_refl _, hp.1, hp.2.1, ?_⟩
+    refine ⟨rfl, hok, hrel, shLe_refl _, hp.1, ?_⟩
     intro a ha
     simp only [step, Option.map_eq_some_iff] at ha
     obtain ⟨b, hb, rfl⟩ := ha
-    rw [overlay_length]; exact hp.2.2 b hb
+    rw [overlay_length]; exact hp.2 b hb
   | clone k => exact ⟨rfl, hok, hrel, shLe_refl _, hp⟩
   | put =>
     cases hh : p.held with
@@ -99,69 +95,18 @@ theorem step_spec (sh0 sh : Sh) (p : Priv) (a : Act) (c : Nat) (hok : ShOK sh) (
       cases p; simp_all
     | some a =>
       simp only [step, hh, privSolo]
-      refine ⟨trivial, ⟨?_, hok.2⟩, hrel, ⟨id, fun _ _ => rfl⟩, hp.1, hp.2.1, ?_⟩
+      refine ⟨trivial, ⟨?_, hok.2⟩, hrel, ⟨id, rfl⟩, hp.1, ?_⟩
       · intro b hb
         rcases List.mem_cons.mp hb with rfl | hb
-        · have hl := hp.2.2 a hh
+        · have hl := hp.2 a hh
           simp only [zeroArr, ← hl]
           exact List.map_const' ..
         · exact hok.1 b hb
       · intro b hb; simp at hb
-  | optDefault o =>
-    refine ⟨rfl, ?_, ?_, ?_, ?_⟩
-    · by_cases h : (sh.opts o).isNone = true <;> simp [step, h] <;> exact hok
-    · by_cases h : (sh.opts o).isNone = true
-      · simp only [step, h, if_true]
-        intro x
-        by_cases hx : x = o
-        · subst hx
-          right
-          have hn : sh.opts x = none := by simpa using h
-          rcases hrel x with h1 | h1
-          · exact ⟨by rw [← h1, hn], by simp⟩
-          · rw [hn] at h1; simp at h1
-        · simp only [hx, if_false]; exact hrel x
-      · simp only [step, h]; exact hrel
-    · by_cases h : (sh.opts o).isNone = true
-      · simp only [step, h, if_true]
-        refine ⟨id, ?_⟩
-        intro x hx
-        by_cases hxo : x = o
-        · subst hxo
-          have hn : sh.opts x = none := by simpa using h
-          rw [hn] at hx; simp at hx
-        · simp [hxo]
-      · simp only [step, h]; exact shLe_refl _
-    · by_cases h : (sh.opts o).isNone = true
-      · simp only [step, h, if_true]
-        refine ⟨hp.1, ?_, hp.2.2⟩
-        intro x hx
-        rcases List.mem_cons.mp hx with rfl | hx
-        · simp
-        · by_cases hxo : x = o
-          · simp [hxo]
-          · simp only [hxo, if_false]; exact hp.2.1 x hx
-      · simp only [step, h]
-        refine ⟨hp.1, ?_, hp.2.2⟩
-        intro x hx
-        rcases List.mem_cons.mp hx with rfl | hx
-        · cases hv : sh.opts x with
-          | none => rw [hv] at h; simp at h
-          | some v => simp [hv]
-        · exact hp.2.1 x hx
   | optRead o =>
     refine ⟨?_, hok, hrel, shLe_refl _, hp⟩
     simp only [step, privSolo]
-    by_cases h : o ∈ p.defaulted
-    · have hs := hp.2.1 o h
-      simp only [List.contains_eq_mem, h, decide_true, if_true]
-      rcases hrel o with h1 | ⟨h0, h1⟩
-      · rw [← h1]
-        cases hv : sh.opts o with
-        | none => rw [hv] at hs; simp at hs
-        | some v => simp
-      · rw [h0, h1]; simp
-    · simp [h]
+    rw [hrel]
   | loc v => exact ⟨rfl, hok, hrel, shLe_refl _, hp⟩
 
 end Fit.Shared
@@ -176,14 +121,14 @@ structure CfgInv (sh0 : Sh) (cfg : Cfg) : Prop where
   rel : OptsRel sh0 cfg.sh
   thr : ∀ t ∈ cfg.threads, PrivOK cfg.sh t.priv ∧ t.priv = soloPriv sh0.opts t.done
 
-theorem optsRel_refl (sh : Sh) : OptsRel sh sh := fun _ => Or.inl rfl
+theorem optsRel_refl (sh : Sh) : OptsRel sh sh := rfl
 
 theorem cfgInv_init (progs : List (List Act)) (sh0 : Sh) (h0 : ShOK sh0) : CfgInv sh0 (initCfg progs sh0) := by
   refine ⟨h0, optsRel_refl _, ?_⟩
   intro t ht
   simp only [initCfg, List.mem_map] at ht
   obtain ⟨p, _, rfl⟩ := ht
-  refine ⟨⟨?_, ?_, ?_⟩, rfl⟩ <;> simp [initPriv]
+  refine ⟨⟨?_, ?_⟩, rfl⟩ <;> simp [initPriv]
 
 theorem cfgInv_step (sh0 : Sh) (cfg : Cfg) (i c : Nat) (inv : CfgInv sh0 cfg) : CfgInv sh0 (stepThread cfg i c) := by
   unfold stepThread
@@ -305,61 +250,67 @@ theorem solo_finished (prog : List Act) (sh0 : Sh) (cs : List Nat) (hcs : prog.l
   · simp [List.drop_eq_nil_of_le hcs]
   · simp [List.take_of_length_le hcs]
 
-/-- pending access of a thread to options cell `o`, and a write by the next action -/
-def writesOpt (a : Act) (sh : Sh) : Option Nat :=
+/-- **No action writes an options object**, in any state: the nil check of `ToMesg` takes the default in a local. -/
+theorem opts_step (a : Act) (c : Nat) (p : Priv) (sh : Sh) : (step a c p sh).2.opts = sh.opts := by
+  cases a <;> simp [step]
+  · by_cases h : sh.once = true <;> simp [h]
+  · cases p.held <;> rfl
+
+theorem opts_stepThread (cfg : Cfg) (i c : Nat) : (stepThread cfg i c).sh.opts = cfg.sh.opts := by
+  unfold stepThread
+  cases cfg.threads[i]? with
+  | none => rfl
+  | some t =>
+    simp only
+    cases t.todo with
+    | nil => rfl
+    | cons a rest => exact opts_step a c t.priv cfg.sh
+
+/-- under every schedule, from ANY initial configuration, all options objects are what they were at the start -/
+theorem opts_exec (sched : List (Nat × Nat)) : ∀ cfg, (exec cfg sched).sh.opts = cfg.sh.opts := by
+  induction sched with
+  | nil => intro cfg; rfl
+  | cons e es ih => intro cfg; exact (ih _).trans (opts_stepThread cfg e.1 e.2)
+
+/-- action `a` (with `Get` choice `c`, private state `p`), executed by step function `stp` in shared state `sh`, WRITES
+options object `o`: the cell afterwards differs from the cell before (semantic; not a list of "writing" constructors) -/
+def WritesOpt (stp : Act → Nat → Priv → Sh → Priv × Sh) (a : Act) (c : Nat) (p : Priv) (sh : Sh) (o : Nat) : Prop :=
+  (stp a c p sh).2.opts o ≠ sh.opts o
+
+/-- a data race on a caller's options object, at model level (for a step semantics `stp`): some thread's next action
+WRITES `options.Factory` of object `o` (for some resolution `c` of `Get`) while another thread still has an
+(unsynchronised) access to the same object ahead of it -/
+def ConflictAtWith (stp : Act → Nat → Priv → Sh → Priv × Sh) (cfg : Cfg) : Prop :=
+  ∃ (i j : Nat) (ti tj : Thread) (a : Act) (rest : List Act) (o c : Nat), i ≠ j ∧ cfg.threads[i]? = some ti ∧
+    cfg.threads[j]? = some tj ∧ ti.todo = a :: rest ∧ WritesOpt stp a c ti.priv cfg.sh o ∧ mentions tj.todo o = true
+
+/-- the conflict notion for the model's own step function -/
+def ConflictAt (cfg : Cfg) : Prop := ConflictAtWith step cfg
+
+/-- no configuration at all (reachable or not) has a thread about to write an options object -/
+theorem no_conflict_any (cfg : Cfg) : ¬ ConflictAt cfg := by
+  rintro ⟨i, j, ti, tj, a, rest, o, c, _, _, _, _, hw, _⟩
+  exact hw (by rw [opts_step])
+
+/-- the step semantics of the code BEFORE the repair of KF-C15-1 (`else if options.Factory == nil { options.Factory =
+factory.StandardFactory() }`): the nil check wrote the caller's object. Kept only to show that `ConflictAtWith`
+discriminates (it holds of the old semantics on the finding's witness, and of no configuration under `step`). -/
+def stepPreFix (a : Act) (c : Nat) (p : Priv) (sh : Sh) : Priv × Sh :=
   match a with
-  | .optDefault o => if (sh.opts o).isNone then some o else none
-  | _ => none
+  | .optRead o =>
+    ((step a c p sh).1, if (sh.opts o).isNone then { sh with opts := fun x => if x = o then some stdFactory else sh.opts x } else sh)
+  | _ => step a c p sh
 
-/-- a data race on a caller's options object, at model level: some thread is about to WRITE `options.Factory` of object
-`o` while another thread still has an (unsynchronised) access to the same object ahead of it -/
-def ConflictAt (cfg : Cfg) : Prop :=
-  ∃ (i j : Nat) (ti tj : Thread) (a : Act) (rest : List Act) (o : Nat), i ≠ j ∧ cfg.threads[i]? = some ti ∧ cfg.threads[j]? = some tj ∧ ti.todo = a :: rest ∧
-    writesOpt a cfg.sh = some o ∧ mentions tj.todo o = true
-
-/-- options objects used by two different operations have their `Factory` set -/
-def SharedOptsSet (progs : List (List Act)) (sh0 : Sh) : Prop :=
-  ∀ (o i j : Nat) (pi pj : List Act), i ≠ j → progs[i]? = some pi → progs[j]? = some pj → mentions pi o = true → mentions pj o = true →
-    (sh0.opts o).isSome = true
-
-theorem mentions_append (a b : List Act) (o : Nat) : mentions (a ++ b) o = (mentions a o || mentions b o) := by
-  simp [mentions, List.any_append]
-
-theorem thread_prog (progs : List (List Act)) (sh0 : Sh) (sched : List (Nat × Nat)) (i : Nat) (t : Thread)
-    (ht : (exec (initCfg progs sh0) sched).threads[i]? = some t) : progs[i]? = some (t.done ++ t.todo) := by
-  have h2 : progsOf (exec (initCfg progs sh0) sched) = progs := (progsOf_exec sched _).trans (progsOf_init progs sh0)
-  rw [← h2]
-  simp [progsOf, List.getElem?_map, ht]
-
-theorem no_conflict (progs : List (List Act)) (sh0 : Sh) (h0 : ShOK sh0) (hs : SharedOptsSet progs sh0)
-    (sched : List (Nat × Nat)) : ¬ ConflictAt (exec (initCfg progs sh0) sched) := by
-  rintro ⟨i, j, ti, tj, a, rest, o, hij, hti, htj, htodo, hw, hm⟩
-  have inv := cfgInv_exec sh0 sched _ (cfgInv_init progs sh0 h0)
-  have hpi := thread_prog progs sh0 sched i ti hti
-  have hpj := thread_prog progs sh0 sched j tj htj
-  -- the writing action is `optDefault o` on a nil cell
-  cases a <;> simp [writesOpt] at hw
-  rename_i o'
-  obtain ⟨hnone, rfl⟩ := hw
-  have hmi : mentions (ti.done ++ ti.todo) o' = true := by
-    rw [mentions_append, htodo]; simp [mentions]
-  have hmj : mentions (tj.done ++ tj.todo) o' = true := by
-    rw [mentions_append, hm]; simp
-  have hset := hs o' i j _ _ hij hpi hpj hmi hmj
-  rcases inv.rel o' with h1 | ⟨h1, _⟩
-  · rw [← h1] at hset
-    cases hv : (exec (initCfg progs sh0) sched).sh.opts o' with
-    | none => rw [hv] at hset; simp at hset
-    | some v => rw [hv] at hnone; simp at hnone
-  · rw [h1] at hset; simp at hset
-
-/-- F16 at model level: two `ToMesg` conversions sharing one options object whose `Factory` is nil -/
+/-- F16's witness at model level: two `ToMesg` conversions sharing one options object whose `Factory` is nil -/
 def kfProgs : List (List Act) := [progToMesg 0 [1], progToMesg 0 [2]]
 def kfSh : Sh := { once := false, table := fun _ => 0, pool := [], opts := fun _ => none }
 
-theorem kf_conflict : ShOK kfSh ∧ ConflictAt (exec (initCfg kfProgs kfSh) []) := by
-  refine ⟨⟨by simp [kfSh], by simp [kfSh]⟩, ?_⟩
-  refine ⟨0, 1, _, _, .optDefault 0, _, 0, by decide, rfl, rfl, rfl, rfl, rfl⟩
+theorem kfSh_ok : ShOK kfSh := ⟨by simp [kfSh], by simp [kfSh]⟩
+
+/-- under the pre-repair semantics the witness is a conflict (this was `C15_KF1_witness`) -/
+theorem kf_conflict_preFix : ConflictAtWith stepPreFix (initCfg kfProgs kfSh) := by
+  refine ⟨0, 1, _, _, .optRead 0, _, 0, 0, by decide, rfl, rfl, rfl, ?_, rfl⟩
+  simp [WritesOpt, stepPreFix, initCfg, kfSh]
 
 /-- results do not rest on what `Get` hands out: from ANY shared state (pool content arbitrary, not necessarily zeroed)
 and any choice of `Get`, `mesgdef.NewXxx` yields exactly the values it appended -/
@@ -376,42 +327,16 @@ def isOnce : Act → Bool
   | .onceDo => true
   | _ => false
 
-def optOf : Act → Option Nat
-  | .optDefault o => some o
-  | _ => none
-
-def defaultOpt (opts : Nat → Option Nat) (o : Nat) : Nat → Option Nat :=
-  if (opts o).isNone then fun x => if x = o then some stdFactory else opts x else opts
-
 theorem once_step (a : Act) (c : Nat) (p : Priv) (sh : Sh) : (step a c p sh).2.once = (sh.once || isOnce a) := by
   cases a <;> simp [step, isOnce]
   · by_cases h : sh.once = true <;> simp [h]
   · cases p.held <;> rfl
-  · split <;> rfl
 
 theorem table_step (a : Act) (c : Nat) (p : Priv) (sh : Sh) :
     (step a c p sh).2.table = if sh.once || !isOnce a then sh.table else theTable := by
   cases a <;> simp [step, isOnce]
   · by_cases h : sh.once = true <;> simp [h]
   · cases p.held <;> rfl
-  · split <;> rfl
-
-theorem opts_step (a : Act) (c : Nat) (p : Priv) (sh : Sh) :
-    (step a c p sh).2.opts = match optOf a with | some o => defaultOpt sh.opts o | none => sh.opts := by
-  cases a <;> simp [step, optOf, defaultOpt]
-  · by_cases h : sh.once = true <;> simp [h]
-  · cases p.held <;> rfl
-  · split <;> rfl
-
-theorem defaultOpt_comm (opts : Nat → Option Nat) (o o' : Nat) :
-    defaultOpt (defaultOpt opts o) o' = defaultOpt (defaultOpt opts o') o := by
-  funext x
-  by_cases e : o = o'
-  · subst e; rfl
-  · have e' : ¬ o' = o := fun h => e h.symm
-    unfold defaultOpt
-    by_cases h1 : (opts o).isNone = true <;> by_cases h2 : (opts o').isNone = true <;>
-      by_cases e1 : x = o <;> by_cases e2 : x = o' <;> simp_all
 
 /-- shared states that agree except possibly in HOW MANY zeroed arrays the pool holds (`sync.Pool.Get` may allocate) -/
 def ShEq (a b : Sh) : Prop :=
@@ -434,7 +359,5 @@ theorem actions_commute (sh0 sh : Sh) (p q : Priv) (a b : Act) (c d : Nat)
   · simp only [table_step, once_step]
     cases sh.once <;> cases isOnce a <;> cases isOnce b <;> rfl
   · simp only [opts_step]
-    cases optOf a <;> cases optOf b <;> simp only []
-    exact (defaultOpt_comm _ _ _).symm
 
 end Fit.Shared
